@@ -172,6 +172,8 @@ def run(ctx):
                gi.loc(adds[0]) if adds else gi.loc())
     # worker: returns True only after download and post-process
     from .fc import inline_statement_calls
+    from .fc import normalise_pathlib
+    worker = normalise_pathlib(p, worker)          # pathlib spellings of replace / unlink / exists read as the os calls
     wnode = inline_statement_calls(p, worker)      # see through helper extraction (download/publish moved into a helper)
     cfgw = CFG(wnode, exceptions=False)
     dcalls = [c for c in calls(wnode) if call_name(c).endswith(".download_function")]
